@@ -5,7 +5,7 @@ CONSTANTS Nib = {0, 1}
           Pad = 0
           MaxKeys = 4
           TrackHash = TRUE
-          MaxRoots = 3
+          MaxRoots = 2
           Mode = "mc"
           Depth = 0
           MaxGen = 0
